@@ -297,6 +297,42 @@ def r5(ctx, cfg, R="C06.R5"):
     ok = _self_field(a[0], "local_state") and b[0] == "call" and b[1] == T + "range_bounds" and is_param(b[2][0], "start") and is_param(b[2][1], "end")
     ctx.ob(R, key, "range(local_state, range_bounds(start,end))", ok, "BTreeMap::range(%s, %s)" % (fmt(a[0]), fmt(a[1])[:100]), fn=f,
            line=rt["line"], sample="local_state.range(range_bounds(start, end))")
+    # range_bounds shape (form-agnostic: `start.map_or(Unbounded, |x| Included(x.to_vec()))` or a `match` on the Option)
+    k2 = T + "range_bounds"
+    g = ctx.need_fn(R, k2)
+    if g is not None:
+        ret = peel(P.ret(g))
+        ok = ret[0] == "agg" and ret[1] == "tuple" and len(ret[2]) == 2
+        ctx.ob(R, k2, "bounds=(Included(start)|Unbounded, Excluded(end)|Unbounded)", ok, "range_bounds returns %s" % fmt(ret)[:200], fn=g,
+               sample="(start.map_or(Unbounded, Included), end.map_or(Unbounded, Excluded))")
+        if ok:
+            for (pname, want), comp in zip((("start", "Included"), ("end", "Excluded")), (ret[2][0][1], ret[2][1][1])):
+                cases = []
+                for o in alts(peel(comp)):
+                    o = peel(o)
+                    if o[0] == "call" and o[1] in ("std::option::Option::map_or", "std::option::Option::map_or_else") and is_param(o[2][0], pname):
+                        cases.append(("none", peel(o[2][1])))
+                        c = peel(o[2][2])
+                        h = F.fn(c[1]) if c[0] == "closure" else None
+                        if h is not None:
+                            for r in alts(peel(P.ret(h))):
+                                cases.append(("some", peel(r)))
+                        else:
+                            cases.append(("some", ("unknown", "closure")))
+                    else:
+                        cases.append(("?", o))
+                kinds = set()
+                for tag, o in cases:
+                    if o[0] == "agg" and o[1].endswith("Bound::Unbounded"):
+                        kinds.add("Unbounded")
+                    elif o[0] == "agg" and o[1].startswith("std::ops::Bound::") and o[2]:
+                        pay = peel(o[2][0][1])
+                        from_param = pay[0] in ("cparam",) or (pay[0] == "some" and is_param(pay[1], pname)) or (pay[0] == "bound" and is_param(pay[2], pname))
+                        kinds.add(o[1].rsplit("::", 1)[1] if from_param and tag in ("some", "?") else "other:" + fmt(o)[:60])
+                    else:
+                        kinds.add("other:" + fmt(o)[:60])
+                ctx.ob(R, k2, "bound-constructor-%s" % want, kinds == {"Unbounded", want}, "%s bound of the overlay range is %s" % (pname, sorted(kinds)), fn=g,
+                       sample="%s: Unbounded | Bound::%s(%s.to_vec())" % (pname, want, pname))
     # the guard: a comparison start > end between the Included / Excluded payloads
     guards = []
     for bid in f.order:
@@ -344,33 +380,9 @@ def r5(ctx, cfg, R="C06.R5"):
     emp = q.calls(f, "std::iter::empty")
     ok = len(emp) == 1 and cf.dominates(inverted_edge, emp[0][0]) if inverted_edge else False
     ctx.ob(R, key, "inverted-bounds-give-empty-overlay", ok, "the inverted case does not produce iter::empty()", fn=f, sample="iter::empty()")
-    # range_bounds shape
-    k2 = T + "range_bounds"
-    g = ctx.need_fn(R, k2)
-    if g is not None:
-        ret = peel(P.ret(g))
-        ok = ret[0] == "agg" and ret[1] == "tuple" and len(ret[2]) == 2
-        if ok:
-            s, e = peel(ret[2][0][1]), peel(ret[2][1][1])
-            ok = s[0] == "call" and s[1] == "std::option::Option::map_or" and is_param(s[2][0], "start") and \
-                peel(s[2][1])[0] == "agg" and peel(s[2][1])[1].endswith("Bound::Unbounded")
-            ok = ok and e[0] == "call" and e[1] == "std::option::Option::map_or" and is_param(e[2][0], "end") and \
-                peel(e[2][1])[0] == "agg" and peel(e[2][1])[1].endswith("Bound::Unbounded")
-        ctx.ob(R, k2, "bounds=(Included(start)|Unbounded, Excluded(end)|Unbounded)", ok, "range_bounds returns %s" % fmt(ret)[:200], fn=g,
-               sample="(start.map_or(Unbounded, Included), end.map_or(Unbounded, Excluded))")
-        for cl, want in ((k2 + "::{closure#0}", "Included"), (k2 + "::{closure#1}", "Excluded")):
-            h = F.fn(cl)
-            if h is None:
-                ctx.fail(R, cl, "anchor-missing", "closure not found")
-                continue
-            r = peel(P.ret(h))
-            ok = r[0] == "agg" and r[1].endswith("Bound::" + want) and peel(r[2][0][1])[0] in ("cparam", "bound")
-            ctx.ob(R, cl, "bound-constructor-%s" % want, ok, "closure returns %s" % fmt(r)[:100], fn=h, sample="Bound::%s(x.to_vec())" % want)
 
-
-def r6(ctx, cfg):
+def r6(ctx, cfg, R="C06.R6"):
     F, P = cfg.facts, cfg.prov
-    R = "C06.R6"
     # ---- pick_match
     key = T + "MergeOverlay::pick_match"
     f = ctx.need_fn(R, key)
